@@ -75,4 +75,24 @@ pub use chunk_timing_stats::*;
 
 mod search;
 
+/// Verification seam: exposes the crate-private rotated search so it can be driven with in-memory
+/// arrays. Behaviour is exactly that of the private function it delegates to.
+#[cfg(feature = "verif-hooks")]
+pub mod verif_hooks {
+    use std::future::Future;
+
+    /// Delegates to the crate-private `search`.
+    pub async fn search<F, V>(
+        element_count: usize,
+        target: V,
+        f: impl FnMut(usize) -> F,
+    ) -> crate::result::Result<Option<usize>>
+    where
+        F: Future<Output = crate::result::Result<Option<V>>>,
+        V: PartialOrd + Clone,
+    {
+        super::search::search(element_count, target, f).await
+    }
+}
+
 const REALTIME_BUCKET: &str = "unidata-nexrad-level2-chunks";
